@@ -11,7 +11,7 @@ from valida.conditions import ConditionLike, NullCondition
 from valida.data import Data
 
 from .. import gen as G
-from ..common import Report, stream, digest, order_to_decisions
+from ..common import Report, stream, digest, order_to_decisions, big
 from ..engine import Engine, Monitor, Scripted
 from ..terms import World, OP_CLS, COND_KIND, PART_CLS, snap
 
@@ -37,7 +37,7 @@ def generate(seed):
         depth=r.choice([1, 2, 2, 3]),
     )
     knobs["n_callers"] = r.randint(1, 3)
-    knobs["n_steps"] = r.randint(3, 12)
+    knobs["n_steps"] = r.randint(3, 12) + (r.randint(4, 16) if big(r) else 0)
     knobs["p_null_operand"] = r.choice([0.1, 0.25, 0.4])
     knobs["kinds"] = r.choice([("value",), ("value", "key"), ("value", "index"), ("value", "key", "index"), ("value", "key", "index")])
     knobs["op_mix"] = r.choice([(1.0, 0.0, 0.0), (0.7, 0.15, 0.15), (0.5, 0.25, 0.25), (0.6, 0.4, 0.0), (0.6, 0.0, 0.4)])
